@@ -3,7 +3,7 @@
 From Coq Require String.
 Import (notations) String.
 From Coq Require Import Permutation.
-From Tabula Require Import model.C03_Interference gen.GenGlobals proofs.C03_Interference.
+From Tabula Require Import model.C03_Interference gen.GenGlobals gen.GenMapOrder proofs.C03_Interference.
 
 
 
@@ -14,6 +14,14 @@ Print Assumptions C03_no_package_level_variable_is_written_outside_init.
 Theorem C03_only_the_detector_registry_has_methods_called : globals_with_method_calls = ["tables.globalRegistry"%string].
 Proof. exact only_the_detector_registry_has_methods_called. Qed.
 Print Assumptions C03_only_the_detector_registry_has_methods_called.
+
+Theorem C03_shared_tables_that_leave_their_package_variable : aliased_globals = ["font.MacRomanEncoding (returned)"%string; "font.PDFDocEncoding (returned)"%string; "font.StandardEncodingTable (returned)"%string; "font.SymbolEncoding (returned)"%string; "font.WinAnsiEncoding (returned)"%string; "font.ZapfDingbatsEncoding (returned)"%string].
+Proof. exact shared_tables_that_leave_their_package_variable. Qed.
+Print Assumptions C03_shared_tables_that_leave_their_package_variable.
+
+Theorem C03_places_where_map_order_can_show : map_order_sinks = ["core.Dict.Keys: append keys"%string; "core.Dict.String: append parts"%string; "epubdoc.Reader.findNCX: early return"%string; "epubdoc.Reader.findNavDocument: early return"%string; "reader.Reader.ExtractPageImages: append images"%string; "reader.Reader.ResolveDeep: early return"%string; "resolver.ObjectResolver.resolve: early return"%string; "tables.DetectorRegistry.List: append names"%string].
+Proof. exact places_where_map_order_can_show. Qed.
+Print Assumptions C03_places_where_map_order_can_show.
 
 Theorem C03_interleaving_cannot_be_observed : forall (St : Type) (step : nat -> St -> St) (sched : list nat) (s : list St) (i : nat) (d : St), i < length s -> nth i (run St step sched s) d = iter St (count i sched) (step i) (nth i s d).
 Proof. exact interleaving_cannot_be_observed. Qed.
